@@ -486,8 +486,8 @@ func c17CheckText(a *ChildArgs, t c17Text, layer string) {
 		case "L005-long-lines":
 			for i, l := range lines {
 				tr := strings.TrimSpace(l)
-				if strings.HasPrefix(tr, "--") || strings.HasPrefix(tr, "/*") || insideAtStart(i) {
-					continue
+				if strings.HasPrefix(tr, "--") || strings.HasPrefix(tr, "/*") {
+					continue // comment-only lines are exempt (a line that merely continues a literal or a comment is not)
 				}
 				l = strings.TrimSuffix(l, "\r")
 				if strings.Contains(l, "\t") {
